@@ -280,6 +280,12 @@ class SolverRun:
         # params: an existing SolverParameters object to be shared with other solvers (a legitimate use of the API)
         self.params = params if params is not None else SolverParameters(eps=eps, r=r, itersLimit=limit, evolventDensity=m, refineSolution=refine)
         self.n = int(self.rp.numberOfFloatVariables)
+        if params is None and refine and self.tid % 3 == 0:
+            # SolverParameters.startPoint is documented and (in the pinned tree) not consumed: every third refining run sets it to a point
+            # far from where the search will converge - the listed properties speak of the best global-phase trial, not of this point
+            lo_, up_ = self.rp.lowerBoundOfFloatVariables, self.rp.upperBoundOfFloatVariables
+            frac = (0.93, 0.07, 0.5)[(self.tid // 3) % 3]
+            self.params.startPoint = Point(np.array([float(a) + frac * (float(b) - float(a)) for a, b in zip(lo_, up_)], dtype=np.double), [])
         self.full_snap = full_snap
         self.flushed = 0
         self.solver = Solver(self.rp, parameters=self.params)
